@@ -228,7 +228,12 @@ class PureProp:
             run.traces_validated += 1
             for (dt, a), b in zip(answers, mod):
                 nores = {'err DIVERGED', 'err ValueError', 'err OverflowError'}
-                if a != b and not (a in nores and b == 'err DIVERGED'):
+                # beyond the horizon of the exported zone tables (end of 2037) the model cannot judge an answer; a search
+                # that leaves whenever's range (ValueError) and one that uses up the loop bound both found nothing
+                beyond = (a.startswith('ok') and int(a.split()[1]) > 2_140_000_000 * NS_S) or \
+                         (b.startswith('ok') and int(b.split()[1]) > 2_140_000_000 * NS_S) or dt > 2_110_000_000 * NS_S
+                nothing = a in nores and b in ('err DIVERGED', 'err InfiniteLoopDetectedError')
+                if a != b and not nothing and not beyond:
                     run.findings.append(Finding('correspondence', f'[zone {c["tz"]}] object answer differs from the pure model for '
                                                                   f'{prod_sx(spec)[:160]} at {dt}: code {a} / model {b}',
                                                 {'component': 'pure', 'seed': c['seed'], 'broken': 'correspondence pure'}))
